@@ -65,6 +65,14 @@ def extract_state(model, it_facts, fi, self_obj, env, schema, mro_fn, max_len=40
             out.update(schema.get(anc, {}))
         return out
 
+    fams = schema.get("__families__") or []
+
+    def fq(cls, field):
+        for fam in fams:
+            if fam in mro_fn(cls):
+                return "%s.%s" % (fam, field)
+        return field
+
     F = lambda name, *sig: z3.Function(name, *sig)
     R, I, Re, B = core.Ref, z3.IntSort(), z3.RealSort(), z3.BoolSort()
     idx_hint = set()
@@ -89,49 +97,50 @@ def extract_state(model, it_facts, fi, self_obj, env, schema, mro_fn, max_len=40
         objects[oid] = obj
         if cls is None:
             return oid
-        for field, kind in all_fields(cls).items():
+        for field0, kind in all_fields(cls).items():
+            field = fq(cls, field0)
             if kind in ("real", "int"):
-                obj["fields"][field] = num(F("h.%s:%s" % (field, kind), R, Re if kind == "real" else I)(refval))
+                obj["fields"][field0] = num(F("h.%s:%s" % (field, kind), R, Re if kind == "real" else I)(refval))
             elif kind == "bool":
-                obj["fields"][field] = bool(num(F("h.%s:bool" % field, R, B)(refval)))
+                obj["fields"][field0] = bool(num(F("h.%s:bool" % field, R, B)(refval)))
             elif kind == "str" or kind == "str?":
                 if kind == "str?" and num(F("h.%s?none:bool" % field, R, B)(refval)):
-                    obj["fields"][field] = None
+                    obj["fields"][field0] = None
                 else:
                     sv = str(ev(F("h.%s:str" % field, R, core.Str)(refval)))
-                    obj["fields"][field] = str_names.get(sv, "s_" + sv)
+                    obj["fields"][field0] = str_names.get(sv, "s_" + sv)
             elif kind in ("real?", "int?"):
                 base = kind[:-1]
                 if num(F("h.%s?none:bool" % field, R, B)(refval)):
-                    obj["fields"][field] = None
+                    obj["fields"][field0] = None
                 else:
-                    obj["fields"][field] = num(F("h.%s:%s" % (field, base), R, Re if base == "real" else I)(refval))
+                    obj["fields"][field0] = num(F("h.%s:%s" % (field, base), R, Re if base == "real" else I)(refval))
             elif kind.startswith("ref"):
                 tgt = ev(F("h.%s:ref" % field, R, R)(refval))
                 t = visit(tgt)
-                obj["fields"][field] = {"ref": t} if t is not None else None
+                obj["fields"][field0] = {"ref": t} if t is not None else None
             elif kind.startswith("list:"):
-                n = num(F("len(%s)" % field, R, I)(refval))
+                n = num(F("len(%s)" % field0, R, I)(refval))
                 n = max(0, min(n if isinstance(n, int) else 0, max_len))
                 elems = []
                 for k in range(n):
-                    e = ev(F("%s[]" % field, R, I, R)(refval, z3.IntVal(k)))
+                    e = ev(F("%s[]" % field0, R, I, R)(refval, z3.IntVal(k)))
                     elems.append(visit(e))
-                obj["fields"][field] = {"list": elems}
+                obj["fields"][field0] = {"list": elems}
             elif kind in ("arr1", "arr1?"):
                 if kind == "arr1?" and num(F("h.%s?none:bool" % field, R, B)(refval)):
-                    obj["fields"][field] = None
+                    obj["fields"][field0] = None
                     continue
                 n = num(F("h.len(%s)" % field, R, I)(refval))
                 n = n if isinstance(n, int) else need
                 n = max(0, min(n, max(need, 8)))
-                obj["fields"][field] = {"arr1": [num(F("h.%s[]" % field, R, I, Re)(refval, z3.IntVal(i))) for i in range(n)]}
+                obj["fields"][field0] = {"arr1": [num(F("h.%s[]" % field, R, I, Re)(refval, z3.IntVal(i))) for i in range(n)]}
             elif kind == "arr2":
                 nr = num(F("h.rows(%s)" % field, R, I)(refval))
                 nc = num(F("h.cols(%s)" % field, R, I)(refval))
                 nr = max(0, min(nr if isinstance(nr, int) else 1, 12))
                 nc = max(0, min(nc if isinstance(nc, int) else need, max(need, 8)))
-                obj["fields"][field] = {"arr2": [[num(F("h.%s[,]" % field, R, I, I, Re)(refval, z3.IntVal(i), z3.IntVal(j))) for j in range(nc)] for i in range(nr)]}
+                obj["fields"][field0] = {"arr2": [[num(F("h.%s[,]" % field, R, I, I, Re)(refval, z3.IntVal(i), z3.IntVal(j))) for j in range(nc)] for i in range(nr)]}
         return oid
 
     args = {}
@@ -353,9 +362,15 @@ def run_replay(desc, contract, clause_name=None):
             if isinstance(fn, property):
                 call = lambda: fn.fget(self_obj)
             else:
-                call = lambda: getattr(self_obj, meth)(**args)
+                import inspect
+
+                accepted = set(inspect.signature(getattr(type(self_obj), meth)).parameters)
+                call = lambda: getattr(self_obj, meth)(**{k: v for k, v in args.items() if k in accepted})  # ghost parameters are spec-only
     else:
-        call = lambda: getattr(mod, rest)(**args)
+        import inspect
+
+        accepted = set(inspect.signature(getattr(mod, rest)).parameters)
+        call = lambda: getattr(mod, rest)(**{k: v for k, v in args.items() if k in accepted})
     exc = None
     result = None
     with np.errstate(all="ignore"):
